@@ -35,8 +35,9 @@ type Case struct {
 	BViewBox [4]ops.F32  `json:"b_viewbox"`
 	BPalette ops.Palette `json:"b_palette"`
 	BOps     []ops.Op    `json:"b_ops"`
-	BHi      []bool      `json:"b_hires"` // per path
-	Rect     [4]int      `json:"rect"`
+	// per path: 0 leave HighResolutionCoordinates as it is (after Reset: false), 1 set it, 2 clear it
+	BHi  []int  `json:"b_hires"`
+	Rect [4]int `json:"rect"`
 }
 
 func (c Case) bvb() ivg.ViewBox {
@@ -48,7 +49,14 @@ func encodeB(e *encode.Encoder, c Case) ([]byte, error) {
 	path := 0
 	for _, o := range c.BOps {
 		if o.K == ops.StartPath {
-			e.HighResolutionCoordinates = path < len(c.BHi) && c.BHi[path]
+			if path < len(c.BHi) {
+				switch c.BHi[path] {
+				case 1:
+					e.HighResolutionCoordinates = true
+				case 2:
+					e.HighResolutionCoordinates = false
+				}
+			}
 			path++
 		}
 		ops.Apply(e, o)
@@ -228,6 +236,12 @@ func genA(t *rapid.T) ([]ops.Op, []string) {
 		labels = append(labels, "A-sets-LOD")
 		a = append(a, ops.OpSetLOD(float32(rapid.SampledFrom([]int{0, 200, 1000}).Draw(t, "l0")), float32(rapid.SampledFrom([]int{1, 2000}).Draw(t, "l1"))))
 	}
+	if rapid.Bool().Draw(t, "agrad") {
+		labels = append(labels, "A-paints-a-gradient")
+		blk, gs := gen.GradientBlock(t, gen.SimpleMatrix, false)
+		a = append(a, blk...)
+		a = append(a, ops.OpSetCSel(gs.Reg), ops.OpSetLOD(0, 5000), ops.OpStartPath(0, 1, 1), ops.OpDraw(ops.AbsLineTo, 5, 5), ops.OpDraw(ops.AbsLineTo, 1, 9), ops.OpDraw(ops.ClosePathEndPath))
+	}
 	open := rapid.Bool().Draw(t, "open")
 	a = append(a, gen.Program(t, gen.ProgCfg{Num: moderate, OpenEnd: open, MaxRun: 40, AlwaysPath: open})...)
 	if open {
@@ -258,7 +272,7 @@ func genA(t *rapid.T) ([]ops.Op, []string) {
 	return a, labels
 }
 
-func genB(t *rapid.T) ([]ops.Op, []bool) {
+func genB(t *rapid.T) ([]ops.Op, []int) {
 	var b []ops.Op
 	path := func(first ops.Op) {
 		b = append(b, ops.OpStartPath(gen.Adj(t, "badj"), moderate(t, "bx"), moderate(t, "by")), first)
@@ -275,12 +289,19 @@ func genB(t *rapid.T) ([]ops.Op, []bool) {
 	g := spec.EncodeGradientBits(spec.GradientBits{NStops: uint8(rapid.IntRange(2, 5).Draw(t, "gn")), CBase: gen.Sel(t, "gcb"), NBase: gen.Sel(t, "gnb"), Spread: 1})
 	b = append(b, ops.OpSetCReg(0, false, ops.RGBAv(g)))
 	path(ops.OpDraw(ops.AbsLineTo, moderate(t, "lx"), moderate(t, "ly")))
+	// a valid gradient set up from scratch (the Renderer's gradient object is reused between paths)
+	if rapid.Bool().Draw(t, "bgrad") {
+		blk, gs := gen.GradientBlock(t, gen.SimpleMatrix, false)
+		b = append(b, blk...)
+		b = append(b, ops.OpSetCSel(gs.Reg))
+		path(ops.OpDraw(ops.AbsLineTo, moderate(t, "glx"), moderate(t, "gly")))
+	}
 	// then anything well formed
 	b = append(b, gen.Program(t, gen.ProgCfg{Num: moderate, MaxRun: 20, MaxBlocks: 3})...)
-	var hi []bool
+	var hi []int
 	for _, o := range b {
 		if o.K == ops.StartPath {
-			hi = append(hi, rapid.Bool().Draw(t, "bhi"))
+			hi = append(hi, rapid.SampledFrom([]int{0, 0, 0, 1, 2}).Draw(t, "bhi"))
 		}
 	}
 	return b, hi
